@@ -36,8 +36,18 @@ def cases(ctx):
         ep = int(rng.choice([0, 1, 2, 3, 7, 20, 60]))
         en = int(rng.choice([0, 1, 2, 5, 9, 33, 60]))
         sc, ec = gen.cfg(rng)
+        # targets just inside the two ends of the hard range of each class (all-sample coordinates: easy ratio + hard ratio * h,
+        # h = delta or 1 - delta), and their complements for the mirrored metrics
+        edge = []
+        for n_, e_ in ((len(pos), ep), (len(neg), en), (len(pos) + len(neg), ep), (len(pos) + len(neg), en)):
+            tot = n_ + e_ if n_ in (len(pos), len(neg)) and (n_, e_) in ((len(pos), ep), (len(neg), en)) else len(pos) + len(neg) + ep + en
+            dl = float(10.0 ** -rng.uniform(5, 13))
+            for h in (dl, 1.0 - dl):
+                t_ = (e_ + n_ * h) / tot
+                edge += [t_, 1.0 - t_]
+        edge = np.array(edge)[rng.permutation(len(edge))[:6]]
         yield {"pos": pos, "neg": neg, "ep": ep, "en": en, "sc": sc, "ec": ec, "kind": kind, "d": float(rng.uniform(0.5, 3)),
-               "rs": np.concatenate([rng.uniform(0, 1, 6), rng.integers(0, 51, 3) / 50.0]), "lu": np.sort(rng.uniform(0, 1, 2)), "_seed": int(rng.integers(1 << 31)),
+               "rs": np.concatenate([rng.uniform(0, 1, 6), rng.integers(0, 51, 3) / 50.0, edge]), "lu": np.sort(rng.uniform(0, 1, 2)), "_seed": int(rng.integers(1 << 31)),
                "via": str(rng.choice(["ctor", "ctor", "swap_of_warm_parent", "swap_of_fresh_parent", "queried_before"]))}
 
 
